@@ -1,8 +1,11 @@
-(* C11 -- driver entry point for the pipeline as generated (definitions only): flex token names,
+(* C11 -- driver entry points for the pipeline as generated (definitions only): flex token names,
    bison's imported LALR table (Gen/AutomatonGen.v) run by the yacc skeleton model, the grammar
-   actions on the formal-polynomial model. *)
+   actions on the formal-polynomial model; with the hand-written scanner model ([run_yacc_string]) and
+   with the scanner generated from tokenizer.l ([run_gen_string]). *)
 Require Import List String ZArith QArith Qcanon.
-Require Import MPSV.Inline.InlineModel MPSV.Inline.InlineLR MPSV.Inline.Gen.AutomatonGen.
+Require Import MPSV.Inline.InlineModel MPSV.Inline.InlineLR MPSV.Inline.Gen.AutomatonGen MPSV.Inline.LexPipeline.
 
 Definition run_yacc_string (s : string) : option (list ((Z * positive) * (Z * positive))) :=
   option_map (map coeff_out) (run_yacc automaton_gen s).
+Definition run_gen_string (s : string) : option (list ((Z * positive) * (Z * positive))) :=
+  option_map (map coeff_out) (run_gen automaton_gen s).
